@@ -657,6 +657,7 @@ func main() {
 		{"stdoutSrc", []string{"StdoutSrc.lean"}, genStdoutSrc},
 		{"timeSrc", []string{"TimeSrc.lean"}, genTimeSrc},
 		{"posLits", []string{"PosLits.lean"}, genPosLits},
+		{"connWrapSrc", []string{"ConnWrapSrc.lean"}, genConnWrapSrc},
 	}
 	status := map[string]interface{}{}
 	failed := 0
